@@ -91,3 +91,8 @@ Proof. repeat split; reflexivity. Qed.
 From SymfcG Require Import SkelBasis SkelPerm SkelIdx.
 Theorem c04_module_skeletons_in_force : SkelBasis_as_recorded = true /\ SkelPerm_as_recorded = true /\ SkelIdx_as_recorded = true.
 Proof. repeat split; reflexivity. Qed.
+
+(** Further recorded sources this property's statement depends on (the span is the product of every stage: coset projectors, sum-rule builders, symmetry search and representations, eigen-solver, cutoff geometry): whole-function / skeleton match, regenerated on every run. *)
+From SymfcG Require Import ShapesCoset ShapesSumRule ShapesSpg ShapesReps ShapesAuxEig SkelSpg SkelEig SkelMat ShapesGeom ShapesAuxCut SkelCut.
+Theorem c04_recorded_sources4_in_force : ShapesCoset_as_recorded = true /\ ShapesSumRule_as_recorded = true /\ ShapesSpg_as_recorded = true /\ ShapesReps_as_recorded = true /\ ShapesAuxEig_as_recorded = true /\ SkelSpg_as_recorded = true /\ SkelEig_as_recorded = true /\ SkelMat_as_recorded = true /\ ShapesGeom_as_recorded = true /\ ShapesAuxCut_as_recorded = true /\ SkelCut_as_recorded = true.
+Proof. repeat split; reflexivity. Qed.
